@@ -132,7 +132,20 @@ def one(mon: Monitor, rng: random.Random) -> None:
     cfg["array_form"] = form
     handed = gen.array_form(data.copy(), form)
     xx = wrap_xr(handed, src, nodata=nodata, time=t) if tax else wrap_xr(handed, src, nodata=nodata)
-    dd = da.from_array(handed, chunks=((1,) + sch) if tax else sch)
+    sch_used = sch
+    if random.Random(oseed + 1).random() < 0.3 and not glob:
+        # irregular source chunking, as left behind by cropping a regularly chunked array: a different first chunk, equal interior chunks, a remainder
+        def irregular(n, c, r_):
+            first = r_.randint(1, max(1, c))
+            out, left = [min(first, n)], n - min(first, n)
+            while left > 0:
+                out.append(min(c, left)); left -= out[-1]
+            return tuple(out)
+        r_ = random.Random(oseed + 2)
+        sch_used = (irregular(H, max(2, sch[0]) if H > 4 else sch[0], r_), irregular(W, max(2, min(sch[1], 9)) if W > 4 else sch[1], r_))
+        cfg["src_chunks"] = [list(sch_used[0]), list(sch_used[1])]
+        mon.obs["irregular_source_chunkings"] += 1
+    dd = da.from_array(handed, chunks=((1,) + tuple(sch_used)) if tax else sch_used)
     xd = wrap_xr(dd, src, nodata=nodata, time=t) if tax else wrap_xr(dd, src, nodata=nodata)
     dkw = {} if dst_nodata is None else {"dst_nodata": dst_nodata}
     a, e = call(lambda: xr_reproject(xx, dst, resampling=resampling, **dkw).values)
